@@ -11,19 +11,48 @@ use text_utils::windows::{windows, WindowConfig};
 // layout: windows kind max ctx n l1..ln | g text   (the model ignores nothing: g/text travel in a
 // second op "windows" argument list?  -> keep it simple: the string is reconstructed from lens)
 
-fn string_of_lens(lens: &[u64]) -> Result<(String, bool), String> {
-    // 1..4 byte characters; a length > 4 is realised as a grapheme cluster: base + combining marks (2 bytes each)
-    // or ZWJ sequences; use_graphemes is then true
+/// a concrete string whose clusters have exactly the byte lengths `lens`; `var` selects, per cluster, among
+/// several realisations (the model sees the lengths only): plain characters, white space and line separators,
+/// CR LF (one cluster of two ASCII bytes in grapheme mode), base + combining marks, regional-indicator pairs,
+/// ZWJ sequences.  Returns the string and whether grapheme mode is required / forbidden.
+fn string_of_lens(lens: &[u64], var: u64) -> Result<(String, Option<bool>), String> {
     let mut s = String::new();
-    let mut g = false;
-    for &l in lens {
-        match l {
-            1 => s.push('a'),
-            2 => s.push('\u{e4}'),
-            3 => s.push('\u{4e2d}'),
-            4 => s.push('\u{1F600}'),
-            l if l >= 5 => {
-                g = true;
+    let mut need_g = false;
+    for (i, &l) in lens.iter().enumerate() {
+        let sel = if var == 0 { 0 } else { (var >> ((2 * i) % 60)) & 3 };
+        // a mark / second regional indicator would fuse with what precedes it: realisations that start with a
+        // base character only
+        match (l, sel) {
+            (0, _) => return Err("zero-length cluster".into()),
+            (1, 1) => s.push(' '),
+            (1, 2) => s.push('\n'),
+            (1, _) => s.push('a'),
+            (2, 1) => {
+                need_g = true;
+                s.push_str("\r\n")
+            }
+            (2, _) => s.push('\u{e4}'),
+            (3, 1) => s.push('\u{2028}'),
+            (3, 2) => {
+                need_g = true;
+                s.push_str("a\u{301}")
+            }
+            (3, _) => s.push('\u{4e2d}'),
+            (4, 1) => {
+                need_g = true;
+                s.push_str("\u{e4}\u{301}")
+            }
+            (4, _) => s.push('\u{1F600}'),
+            (8, 1) => {
+                need_g = true;
+                s.push_str("\u{1F1E9}\u{1F1EA}")
+            }
+            (11, 1) => {
+                need_g = true;
+                s.push_str("\u{1F468}\u{200D}\u{1F469}")
+            }
+            (l, _) => {
+                need_g = true;
                 // base of 1..2 bytes + k combining acute accents (2 bytes each)
                 let base = if l % 2 == 1 { 'a' } else { '\u{e4}' };
                 s.push(base);
@@ -32,10 +61,9 @@ fn string_of_lens(lens: &[u64]) -> Result<(String, bool), String> {
                     s.push('\u{301}');
                 }
             }
-            _ => return Err("zero-length cluster".into()),
         }
     }
-    Ok((s, g))
+    Ok((s, if need_g { Some(true) } else { None }))
 }
 
 pub fn exec(op: &str, a: &[u64]) -> Result<Outcome, String> {
@@ -46,12 +74,13 @@ pub fn exec(op: &str, a: &[u64]) -> Result<Outcome, String> {
     let kind = r.nat()?;
     let max = r.usize()?;
     let ctx = r.usize()?;
+    let var = r.nat()?;
     let lens = r.nats()?;
     r.end()?;
-    let (s, needs_g) = string_of_lens(&lens)?;
+    let (s, needs_g) = string_of_lens(&lens, var)?;
     // both modes give the same clusters when no cluster has more than one code point; use graphemes
     // whenever a multi-code-point cluster is present, otherwise alternate deterministically
-    let g = needs_g || (lens.len() + max) % 2 == 0;
+    let g = needs_g.unwrap_or((lens.len() + max) % 2 == 0);
     let cs = CharString::new(&s, g);
     let real: Vec<u64> = cs.get_char_byte_lengths().into_iter().map(|x| x as u64).collect();
     if real != lens {
@@ -133,7 +162,9 @@ pub fn exec(op: &str, a: &[u64]) -> Result<Outcome, String> {
 
 pub fn run_c16(ctx: &mut Ctx) {
     let mut emit = |ctx: &mut Ctx, kind: u64, max: u64, c: u64, lens: &[u64]| {
-        let mut v = vec![kind, max, c];
+        // realisation of the clusters: the plain one for a third of the requests, a random one otherwise
+        let var: u64 = if ctx.rng.random_range(0..3) == 0 { 0 } else { ctx.rng.random() };
+        let mut v = vec![kind, max, c, var];
         enc_nats(&mut v, lens.iter().copied());
         ctx.case("windows", &v);
     };
@@ -177,7 +208,7 @@ pub fn run_c16(ctx: &mut Ctx) {
         let lens: Vec<u64> = (0..len)
             .map(|_| {
                 let r = ctx.rng.random_range(0..100);
-                if r < 40 { 1 } else if r < 60 { 2 } else if r < 75 { 3 } else if r < 90 { 4 } else { ctx.rng.random_range(5..=9) }
+                if r < 40 { 1 } else if r < 60 { 2 } else if r < 75 { 3 } else if r < 88 { 4 } else if r < 91 { 8 } else if r < 93 { 11 } else { ctx.rng.random_range(5..=9) }
             })
             .collect();
         let max = ctx.rng.random_range(0..=12);
